@@ -163,6 +163,77 @@ def ofTree : Tree → CTree
 /-- the coldest view of a persisted tree (what `NewStore` starts from) -/
 def cold (t : Tree) : CTree := slot t.slotLoc
 
+/-- `visitNodes` (treap.go) for a visitor that never stops: `asc = true` is `ascendChoice`
+    (`VisitItemsAscend`), `false` is `descendChoice`.  Per node: load it; read its item key-only;
+    decide; if the node is inside the range visit the near subtree, read the item again — now with
+    the value if asked for —, hand it to the visitor with its depth, visit the far subtree; on the
+    way out (`defer`) evict the node's item.  Result: what the visitor saw, the cache afterwards,
+    the file reads in order. -/
+def visitC (f : Bytes) (cmp : Bytes → Bytes → Ordering) (asc wv : Bool) :
+    Nat → CTree → Bytes → Nat → Option (List (Found × Nat) × CTree × List Rd)
+  | 0, _, _, _ => none
+  | fuel+1, t, tgt, d => do
+    let (t1, r1) ← loadNode f t
+    match t1 with
+    | .nil => some ([], .nil, r1)
+    | .stub _ => none
+    | .node l it nn nb r loc => do
+      let (it1, r2) ← loadItem f false it
+      let fd ← it1.found
+      let c := cmp tgt fd.key
+      let choice := if asc then c != .gt else c == .gt
+      if choice then do
+        let (xs, n', r3) ← visitC f cmp asc wv fuel (if asc then l else r) tgt (d+1)
+        let (it2, r4) ← loadItem f wv it1
+        let fd2 ← it2.found
+        let (ys, f', r5) ← visitC f cmp asc wv fuel (if asc then r else l) tgt (d+1)
+        some (xs ++ (fd2, d) :: ys,
+              (if asc then .node n' it2.evict nn nb f' loc else .node f' it2.evict nn nb n' loc),
+              r1 ++ r2 ++ r3 ++ r4 ++ r5)
+      else do
+        let (ys, f', r3) ← visitC f cmp asc wv fuel (if asc then r else l) tgt (d+1)
+        some (ys, (if asc then .node l it1.evict nn nb f' loc else .node f' it1.evict nn nb r loc),
+              r1 ++ r2 ++ r3)
+
+/-- `visitNodes` for a visitor that says stop at the `b`-th item it is handed (`b > 0`; the item it
+    rejects has been delivered): the remaining budget is returned, 0 meaning "the visitor said
+    stop".  A stop inside the near subtree returns at once; a stop at the node's own item returns
+    without touching the far subtree; the deferred eviction of the node's item runs on every path. -/
+def visitCK (f : Bytes) (cmp : Bytes → Bytes → Ordering) (asc wv : Bool) :
+    Nat → CTree → Bytes → Nat → Nat → Option (List (Found × Nat) × Nat × CTree × List Rd)
+  | 0, _, _, _, _ => none
+  | fuel+1, t, tgt, d, b => do
+    let (t1, r1) ← loadNode f t
+    match t1 with
+    | .nil => some ([], b, .nil, r1)
+    | .stub _ => none
+    | .node l it nn nb r loc => do
+      let (it1, r2) ← loadItem f false it
+      let fd ← it1.found
+      let c := cmp tgt fd.key
+      let choice := if asc then c != .gt else c == .gt
+      if choice then do
+        let (xs, b1, n', r3) ← visitCK f cmp asc wv fuel (if asc then l else r) tgt (d+1) b
+        if b1 = 0 then
+          some (xs, 0, (if asc then .node n' it1.evict nn nb r loc else .node l it1.evict nn nb n' loc),
+                r1 ++ r2 ++ r3)
+        else do
+          let (it2, r4) ← loadItem f wv it1
+          let fd2 ← it2.found
+          if b1 = 1 then
+            some (xs ++ [(fd2, d)], 0,
+                  (if asc then .node n' it2.evict nn nb r loc else .node l it2.evict nn nb n' loc),
+                  r1 ++ r2 ++ r3 ++ r4)
+          else do
+            let (ys, b2, f', r5) ← visitCK f cmp asc wv fuel (if asc then r else l) tgt (d+1) (b1 - 1)
+            some (xs ++ (fd2, d) :: ys, b2,
+                  (if asc then .node n' it2.evict nn nb f' loc else .node f' it2.evict nn nb n' loc),
+                  r1 ++ r2 ++ r3 ++ r4 ++ r5)
+      else do
+        let (ys, b2, f', r3) ← visitCK f cmp asc wv fuel (if asc then r else l) tgt (d+1) b
+        some (ys, b2, (if asc then .node l it1.evict nn nb f' loc else .node f' it1.evict nn nb r loc),
+              r1 ++ r2 ++ r3)
+
 /-! ### histories of cache operations on one version of a collection -/
 
 /-- the operations that touch the cache of a version without creating a new one -/
